@@ -1,7 +1,7 @@
 (** Checked memory primitives shared by the Snappy and LZ4 models (definitions only; the lemmas are in
     CompMemProofs.v).  The source is a suffix list, the destination a reversed list plus a capacity;
     see the header of SnappyModel.v. *)
-From Coq Require Import NArith ZArith List Bool.
+From Coq Require Import NArith ZArith List Bool FMapPositive.
 From Carquet Require Import Base.Res Gen.Enums_gen Comp.CompBase.
 Import ListNotations.
 Local Open Scope N_scope.
@@ -36,5 +36,34 @@ Fixpoint copy_back (len : nat) (d : N) (rout : list N) (cap : N) : res (list N) 
       | None => Fault OobRead
       | Some b => if nlen rout <? cap then copy_back l d (b :: rout) cap else Fault OobWrite
       end
+  end.
+
+
+(** read32 at position p of the input (checked) *)
+Definition rd32 (x : list N) (p : nat) : option N :=
+  match skipn p x with
+  | a :: b :: c :: d :: _ => Some (le_val [a; b; c; d])
+  | _ => None
+  end.
+
+
+Definition slice (x : list N) (from to : nat) : list N := firstn (to - from) (skipn from x).
+
+
+(** uint16_t hash_table[], zero-initialised: positions are stored truncated to 16 bits *)
+Definition table := PositiveMap.t N.
+Definition tget (t : table) (h : N) : N :=
+  match PositiveMap.find (N.succ_pos h) t with Some v => v | None => 0 end.
+Definition tset (t : table) (h v : N) : table := PositiveMap.add (N.succ_pos h) v t.
+
+Definition hash_look (hashf : N -> N) (x : list N) (t : table) (ip : nat) : nat * table :=
+  match rd32 x ip with
+  | Some v => let h := hashf v in (N.to_nat (tget t h), tset t h (N.of_nat ip mod 65536))
+  | None => (ip, t)
+  end.
+Definition hash_ins (hashf : N -> N) (x : list N) (t : table) (p : nat) : table :=
+  match rd32 x p with
+  | Some v => tset t (hashf v) (N.of_nat p mod 65536)
+  | None => t
   end.
 
